@@ -50,7 +50,7 @@ class C20(BaseCheck):
   ASSUMPTIONS = ('public method = name not starting with an underscore; names that collide with '
                  'another method\'s _async form or with the proxy base class are not generated',)
   QUICK_CASES = 1200
-  THOROUGH_CASES = 20000
+  THOROUGH_CASES = 100000
   QUICK_WALL = 30
   THOROUGH_WALL = 300
   MIN_DISTINCT = 10
